@@ -230,47 +230,68 @@ example : C05Logger.Reach C05Logger.Demo.t0 C05Logger.Demo.t7 ∧ (∀ i, (C05Lo
 
 /-! ## Close-after-WaitGroup, and what the status line shows once the batch channel is closed
 
-`OpenFilesToChan` / `TailFilesToChan`: a reader goroutine's deferred exit block is `wg.Done()` and THEN
-`out.stopFileReading(name)`; the spawner does `wg.Wait(); out.close()`.  `Model/C05Close.lean`.
+`OpenFilesToChan` / `TailFilesToChan`: a reader goroutine's deferred exit block is `out.stopFileReading(name)` and
+THEN `wg.Done()`; the spawner does `wg.Wait(); out.close()`.  `Model/C05Close.lean`.
 
-Full statement one would like (known finding, it does NOT hold for the order in the source – reproduced on the real
-`OpenFilesToChan`: about 1 run in 300 shows `[5/6] … | f5` right after the batch channel was closed):
-`Reach code (init n) s → s.closed = true → active code s = 0 ∧ readCount code s = n`. -/
+Until /repo 7025f4b the two calls stood in the other order and the statement below did NOT hold (finding "closelag",
+reproduced on the real `OpenFilesToChan`: about 1 run in 300 showed `[5/6] … | f5` right after the batch channel was
+closed); `close_status_lag_counterexample` keeps that fact as a theorem about the OLD order, the corpus case
+`C05 closelag 6 3 6000` re-runs the search on the real code. -/
 
-/-- Partial: the status is complete once every reader goroutine has left its exit block (not merely once the
-    channel is closed). -/
-theorem close_status_complete_partial (n : Nat) {s : C05Close.St} (hr : C05Close.Reach C05Close.code (C05Close.init n) s)
-    (hq : ∀ p ∈ s.pcs, p = 2) : C05Close.active C05Close.code s = 0 ∧ C05Close.readCount C05Close.code s = n :=
-  C05Close.quiescent_status_complete C05Close.code (by decide) hr hq
+/-- **A closed batch channel implies a complete status**, for any number of readers and any interleaving: with the
+    exit block of the source (`stopFileReading`, then `wg.Done()`; `close` only after every `wg.Done()`), once the
+    channel is closed no file is listed as active and all `n` are counted as read. -/
+theorem close_status_complete (n : Nat) {s : C05Close.St}
+    (hr : C05Close.Reach C05Close.code (C05Close.init n) s) (hc : s.closed = true) :
+    C05Close.active C05Close.code s = 0 ∧ C05Close.readCount C05Close.code s = n :=
+  C05Close.closed_status_complete (by decide) hr hc
 
-/-- Counterexample: two readers; both have called `wg.Done()`, the channel gets closed, one of them has not yet
-    reached `stopFileReading`: the status shows one active file and 1/2 read after the close. -/
+/-- Whatever the order of the two exit actions: the status is complete once every reader goroutine has left its
+    exit block (this is all that held of the old order). -/
+theorem close_status_complete_when_quiescent (c : C05Close.Cfg) (hc : c.stoppedAt ≤ 2) (n : Nat) {s : C05Close.St}
+    (hr : C05Close.Reach c (C05Close.init n) s)
+    (hq : ∀ p ∈ s.pcs, p = 2) : C05Close.active c s = 0 ∧ C05Close.readCount c s = n :=
+  C05Close.quiescent_status_complete c hc hr hq
+
+/-- Counterexample for the OLD order (`wg.Done()`, then `stopFileReading`; the source before /repo 7025f4b): two
+    readers; both have called `wg.Done()`, the channel gets closed, one of them has not yet reached
+    `stopFileReading`: the status shows one active file and 1/2 read after the close. -/
 theorem close_status_lag_counterexample :
-    ∃ s : C05Close.St, C05Close.Reach C05Close.code (C05Close.init 2) s ∧ s.closed = true ∧
-      C05Close.active C05Close.code s = 1 ∧ C05Close.readCount C05Close.code s = 1 := by
+    ∃ s : C05Close.St, C05Close.Reach C05Close.oldOrder (C05Close.init 2) s ∧ s.closed = true ∧
+      C05Close.active C05Close.oldOrder s = 1 ∧ C05Close.readCount C05Close.oldOrder s = 1 := by
+  have r1 : C05Close.Reach C05Close.oldOrder (C05Close.init 2) ⟨[1, 0], false⟩ :=
+    .step .refl (.adv (C05Close.init 2) 0 (by decide) (by decide))
+  have r2 : C05Close.Reach C05Close.oldOrder (C05Close.init 2) ⟨[1, 1], false⟩ :=
+    .step r1 (.adv ⟨[1, 0], false⟩ 1 (by decide) (by decide))
+  have r3 : C05Close.Reach C05Close.oldOrder (C05Close.init 2) ⟨[1, 1], true⟩ :=
+    .step r2 (.close ⟨[1, 1], false⟩ rfl (by decide))
+  have r4 : C05Close.Reach C05Close.oldOrder (C05Close.init 2) ⟨[2, 1], true⟩ :=
+    .step r3 (.adv ⟨[1, 1], true⟩ 0 (by decide) (by decide))
+  exact ⟨_, r4, rfl, by decide, by decide⟩
+
+/-- Non-vacuity of `close_status_complete`: the same two readers under the order of the source – the channel can
+    only be closed in the state in which both have finished the whole exit block. -/
+example : ∃ s : C05Close.St, C05Close.Reach C05Close.code (C05Close.init 2) s ∧ s.closed = true ∧ s.pcs = [2, 2] := by
   have r1 : C05Close.Reach C05Close.code (C05Close.init 2) ⟨[1, 0], false⟩ :=
     .step .refl (.adv (C05Close.init 2) 0 (by decide) (by decide))
   have r2 : C05Close.Reach C05Close.code (C05Close.init 2) ⟨[1, 1], false⟩ :=
     .step r1 (.adv ⟨[1, 0], false⟩ 1 (by decide) (by decide))
-  have r3 : C05Close.Reach C05Close.code (C05Close.init 2) ⟨[1, 1], true⟩ :=
-    .step r2 (.close ⟨[1, 1], false⟩ rfl (by decide))
-  have r4 : C05Close.Reach C05Close.code (C05Close.init 2) ⟨[2, 1], true⟩ :=
-    .step r3 (.adv ⟨[1, 1], true⟩ 0 (by decide) (by decide))
-  exact ⟨_, r4, rfl, by decide, by decide⟩
+  have r3 : C05Close.Reach C05Close.code (C05Close.init 2) ⟨[2, 1], false⟩ :=
+    .step r2 (.adv ⟨[1, 1], false⟩ 0 (by decide) (by decide))
+  have r4 : C05Close.Reach C05Close.code (C05Close.init 2) ⟨[2, 2], false⟩ :=
+    .step r3 (.adv ⟨[2, 1], false⟩ 1 (by decide) (by decide))
+  exact ⟨_, .step r4 (.close ⟨[2, 2], false⟩ rfl (by decide)), rfl, rfl⟩
 
-/-- With the two exit actions in the other order (`stopFileReading`, then `wg.Done()`) the full statement holds:
-    a closed channel implies a complete status, for any number of readers and any interleaving. -/
-theorem close_status_complete_stop_first (n : Nat) {s : C05Close.St}
-    (hr : C05Close.Reach C05Close.stopFirst (C05Close.init n) s) (hc : s.closed = true) :
-    C05Close.active C05Close.stopFirst s = 0 ∧ C05Close.readCount C05Close.stopFirst s = n :=
-  C05Close.closed_status_complete (by decide) hr hc
-
-/-- The order the model's `code` configuration stands for is the order in the source, in both batchers; and both
-    channels (`Batcher.c`, `Extractor.readChan`) are closed right after `wg.Wait()` by the goroutine that waited –
-    the only `close` of each (no send on a closed channel: senders are counted by the WaitGroup). -/
+/-- The order the model's `code` configuration stands for is the order in the source, in both batchers: the
+    deferred exit block is `[<-sema;] out.stopFileReading(…); wg.Done()` and these are the only calls of the two
+    in the function; and both channels (`Batcher.c`, `Extractor.readChan`) are closed right after `wg.Wait()` by
+    the goroutine that waited – the only `close` of each (no send on a closed channel: senders are counted by the
+    WaitGroup).  Swapping the two calls back breaks this theorem. -/
 theorem close_after_waitgroup_skeleton :
-    ["recv:sema", "call:wg.Done", "call:out.stopFileReading"] <:+: Gen.Skeleton.openFilesToChan ∧
-    ["call:wg.Done", "call:out.stopFileReading"] <:+: Gen.Skeleton.tailFilesToChan ∧
+    ["defer{", "recv:sema", "call:out.stopFileReading", "call:wg.Done", "}"] <:+: Gen.Skeleton.openFilesToChan ∧
+    ["defer{", "call:out.stopFileReading", "call:wg.Done", "}"] <:+: Gen.Skeleton.tailFilesToChan ∧
+    Gen.Skeleton.openFilesToChan.count "call:wg.Done" = 1 ∧ Gen.Skeleton.openFilesToChan.count "call:out.stopFileReading" = 1 ∧
+    Gen.Skeleton.tailFilesToChan.count "call:wg.Done" = 1 ∧ Gen.Skeleton.tailFilesToChan.count "call:out.stopFileReading" = 1 ∧
     ["call:wg.Wait", "call:out.close"] <:+: Gen.Skeleton.openFilesToChan ∧
     ["call:wg.Wait", "call:out.close"] <:+: Gen.Skeleton.tailFilesToChan ∧
     ["call:wg.Wait", "close:extractor.readChan"] <:+: Gen.Skeleton.extractorNew ∧
@@ -278,7 +299,8 @@ theorem close_after_waitgroup_skeleton :
     (Gen.Skeleton.openFilesToChan.filter (· == "call:out.close")).length = 1 ∧
     (Gen.Skeleton.tailFilesToChan.filter (· == "call:out.close")).length = 1 ∧
     (Gen.Skeleton.extractorNew.filter (· == "close:extractor.readChan")).length = 1 := by
-  refine ⟨by decide, by decide, by decide, by decide, by decide, rfl, by decide, by decide, by decide⟩
+  refine ⟨by decide, by decide, by decide, by decide, by decide, by decide, by decide, by decide, by decide, rfl,
+    by decide, by decide, by decide⟩
 
 /-- The aggregation-loop skeleton regenerated from /repo is the one the transition system models. -/
 theorem skeleton_matches_source :
